@@ -56,6 +56,21 @@ var fixedCases = []Case{
 		"(in-package 'p1)\n(export 'f)\n(defun f () 1)\n",
 		"(in-package 'p2)\n(export 'f)\n(defun f () 2)\n",
 		"(in-package 'app)\n(use-package 'p1)\n(use-package 'p2)\n(f)\n"),
+	// 13. (no finding; guards the cross-file identity key) two files with one
+	// base name in different directories, same-named private definitions at the
+	// same line and column, referenced from a third file
+	paths(one("mismatch:cross-file-identity/same-base-name", true, false, nil, "",
+		"(in-package 'billing)\n(defun scale (v) (* v 2))\n",
+		"(in-package 'shipping)\n(defun scale (v) (* v 3))\n",
+		"(in-package 'billing)\n(scale 5)\n"),
+		"billing/util.lisp", "shipping/util.lisp", "app/main.lisp"),
+}
+
+func paths(c Case, ps ...string) Case {
+	for i := range c.Files {
+		c.Files[i].Path = ps[i]
+	}
+	return c
 }
 
 func enumFixed(shard, nshards int, emit func(Case) bool) {
